@@ -2,10 +2,9 @@
    operations performed by the harness) with what the implementation was observed to do *)
 From V Require Export Base.Hex Trunc.Model.
 
-(* which model of ExportTx the implementation is compared with: false = the code as it is (both
-   "partially truncated transaction" returns keep _valBsMux); switch to true once
-   fixes/C14-unlock.diff is committed *)
-Definition export_is_fixed : bool := false.
+(* which model of ExportTx the implementation is compared with: true = the code since 7ccd103 (unlock on both early returns); false = the code before it (both
+   "partially truncated transaction" returns keep _valBsMux) *)
+Definition export_is_fixed : bool := true.
 
 Inductive obs :=
 | BNone
